@@ -80,7 +80,7 @@ func goEncObj(obj any, pre []byte, m BufMode) (res EncResult) {
 	}()
 	err := callEncode(obj, buf)
 	if err != nil {
-		return EncResult{Class: "err"}
+		return EncResult{Class: "err", Val: readObj(obj)}
 	}
 	out := buf.Bytes()
 	res.Class = "ok"
